@@ -22,6 +22,7 @@ extern unsigned long long br_verif_t0_steps;
 /* violation prefix (property id) is set by each harness */
 static const char *tp_prop = "C01";
 static char tp_case[1024] = "";   /* description of the running case, for reports */
+__attribute__((constructor)) static void tp_case_init_(void) { vf_cur_case = tp_case; }
 static long long tp_calls = 0;    /* monitored library calls */
 
 #define TP_VIOL(mon, what)   do { \
